@@ -940,7 +940,7 @@ func Root(v ssa.Value) ssa.Value {
 func (p *Prog) FreshIn(v ssa.Value) bool { return p.freshRef(v, 0, map[ssa.Value]bool{}) }
 
 func (p *Prog) freshRef(v ssa.Value, d int, seen map[ssa.Value]bool) bool {
-	if d > 8 || v == nil {
+	if d > 14 || v == nil {
 		return false
 	}
 	if seen[v] {
@@ -966,7 +966,7 @@ func (p *Prog) freshRef(v ssa.Value, d int, seen map[ssa.Value]bool) bool {
 		}
 		for _, s := range sites {
 			as := s.Common().Args
-			if idx >= len(as) || !p.freshRef(as[idx], d+2, map[ssa.Value]bool{}) {
+			if idx >= len(as) || !p.freshRef(as[idx], d+1, seen) {
 				return false
 			}
 		}
@@ -1133,7 +1133,7 @@ func (p *Prog) freshWholeValue(v ssa.Value, d int, seen map[ssa.Value]bool) bool
 // freshResult: result idx of an in-module call is fresh if every return of the callee returns a fresh (or nil) value there.
 func (p *Prog) freshResult(cc *ssa.CallCommon, idx int, d int, seen map[ssa.Value]bool) bool {
 	cal := cc.StaticCallee()
-	if cal == nil || !p.InTarget(cal) || cal.Blocks == nil || d > 5 {
+	if cal == nil || !p.InTarget(cal) || cal.Blocks == nil || d > 9 {
 		return false
 	}
 	for _, ret := range Returns(cal) {
@@ -1141,7 +1141,13 @@ func (p *Prog) freshResult(cc *ssa.CallCommon, idx int, d int, seen map[ssa.Valu
 			return false
 		}
 		for _, rv := range ReturnOperand(ret, idx) {
-			if !p.freshRef(rv, d+2, map[ssa.Value]bool{}) {
+			sub := map[ssa.Value]bool{}
+			dd := d + 2
+			if p.PrivateHelper(cal) {
+				// a step of the caller: one analysis across the boundary (accumulators threaded through helpers)
+				sub, dd = seen, d+1
+			}
+			if !p.freshRef(rv, dd, sub) {
 				return false
 			}
 		}
